@@ -407,6 +407,8 @@ pub struct Report {
   pub floors: Vec<(String, u64)>,
   pub min_nontrivial: u64,
   pub extra: BTreeMap<String, Value>,
+  /// evidence file is <id><suffix>.json (sanitizer slices use a suffix)
+  pub evidence_suffix: String,
 }
 
 impl Report {
@@ -422,6 +424,7 @@ impl Report {
       floors: vec![],
       min_nontrivial: 2,
       extra: BTreeMap::new(),
+      evidence_suffix: String::new(),
     }
   }
 
@@ -520,6 +523,13 @@ impl Report {
     for (k, v) in &self.extra {
       coverage.insert(k.clone(), v.clone());
     }
+    if self.evidence_suffix.is_empty()
+      && let Ok(p) = std::env::var("DGV_SANITIZER_SUMMARY")
+      && let Ok(t) = std::fs::read_to_string(&p)
+      && let Ok(v) = serde_json::from_str::<Value>(&t)
+    {
+      coverage.insert("sanitizer_runs".into(), v);
+    }
     let verdict = if !unknown.is_empty() {
       "violated"
     } else if !inconclusive.is_empty() {
@@ -541,7 +551,7 @@ impl Report {
     });
     let dir = format!("{}/evidence", VERIF_DIR);
     std::fs::create_dir_all(&dir).ok();
-    let path = format!("{}/{}.json", dir, self.id);
+    let path = format!("{}/{}{}.json", dir, self.id, self.evidence_suffix);
     std::fs::write(&path, serde_json::to_string_pretty(&evidence).unwrap())
       .expect("write evidence");
 
